@@ -1,35 +1,367 @@
 package sym
 
-import "go/token"
+import (
+	"fmt"
+	"go/token"
+	"go/types"
+	"sort"
+)
 
-// Happens-before (vector clock) race monitor. See hb_impl.go; these hooks are no-ops unless Cfg.Race.
+// Happens-before (vector clock) race monitor, active when Cfg.Race is set.
+//
+// Every thread carries a vector clock; every heap cell written or read by repository / standard-library code
+// (not by harness code, and not cells of harness-allocated objects) carries its last write epoch and the read
+// epochs since. Edges follow the Go memory model: go statement -> thread start; atomic store/RMW -> atomic
+// load/RMW of the same cell; channel send -> the receive of that item, receive -> later sends (over-approximated:
+// a send acquires all earlier receives), close -> receive-of-closed; Unlock -> later Lock (and R-variants);
+// timer arm -> callback start; thread end -> Quiesce. The vrt models (context, sync.Map, sync.Once) run inside
+// vrt.Atomic sections, which act as one global lock (an over-approximation of the ordering the real primitives
+// provide: it can hide a race between accesses adjacent to two unrelated primitives, never invent one).
 
 type shadowKey struct {
 	Obj  ObjID
 	Path string
 }
 
-type shadowCell struct {
-	wT   int32 // writer thread slot
-	wC   int32 // writer clock
-	wPos token.Pos
-	rd   []int32 // per-thread-slot read clocks
-	rPos []token.Pos
+type epoch struct {
+	T   int32
+	C   int32
+	Pos token.Pos
+	Fn  string
 }
 
-func (c *canonicaliser) shadow(id ObjID) {}
+type shadowCell struct {
+	W  epoch
+	Rd []epoch
+}
 
-func (e *Engine) hbFork(st *State, parent, child *Thread) []int32           { return nil }
-func (e *Engine) hbAccess(st *State, th *Thread, o *Object, p Ptr, write bool, pos token.Pos) {}
-func (e *Engine) hbAtomic(st *State, th *Thread, p Ptr, write bool)          {}
-func (e *Engine) hbAcquire(st *State, th *Thread, p Ptr)                     {}
-func (e *Engine) hbRelease(st *State, th *Thread, p Ptr)                     {}
-func (e *Engine) hbReleaseShared(st *State, th *Thread, p Ptr)               {}
-func (e *Engine) hbChanSend(st *State, th *Thread, o *Object, id ObjID)      {}
-func (e *Engine) hbChanRecv(st *State, th *Thread, o *Object, id ObjID, closed bool) {}
-func (e *Engine) hbChanClose(st *State, th *Thread, o *Object, id ObjID)     {}
-func (e *Engine) hbChanPeek(st *State, th *Thread, o *Object, id ObjID)      {}
-func (e *Engine) hbRendezvous(st *State, a, b *Thread)                       {}
-func (e *Engine) hbJoinAll(st *State, th *Thread)                            {}
-func (e *Engine) hbTimerArm(st *State, th *Thread, id ObjID)                 {}
-func (e *Engine) hbTimerFire(st *State, th *Thread, id ObjID)                {}
+func vcJoin(a, b []int32) []int32 {
+	n := len(a)
+	if len(b) > n {
+		n = len(b)
+	}
+	out := make([]int32, n)
+	copy(out, a)
+	for i, v := range b {
+		if v > out[i] {
+			out[i] = v
+		}
+	}
+	return out
+}
+
+func vcGet(vc []int32, t int32) int32 {
+	if int(t) < len(vc) {
+		return vc[t]
+	}
+	return 0
+}
+
+func (e *Engine) vcOf(th *Thread) []int32 {
+	if len(th.VC) <= th.ID {
+		n := make([]int32, th.ID+1)
+		copy(n, th.VC)
+		th.VC = n
+	}
+	if th.VC[th.ID] == 0 {
+		th.VC[th.ID] = 1
+	}
+	return th.VC
+}
+
+func (e *Engine) vcTick(th *Thread) {
+	vc := append([]int32(nil), e.vcOf(th)...)
+	vc[th.ID]++
+	th.VC = vc
+}
+
+func (e *Engine) hbFork(st *State, parent, child *Thread) []int32 {
+	var vc []int32
+	if parent != nil {
+		vc = append([]int32(nil), e.vcOf(parent)...)
+		e.vcTick(parent)
+	}
+	if len(vc) <= child.ID {
+		n := make([]int32, child.ID+1)
+		copy(n, vc)
+		vc = n
+	}
+	vc[child.ID] = 1
+	return vc
+}
+
+func (st *State) syncGet(k shadowKey) []int32 { return st.SyncVC[k] }
+func (st *State) syncSet(k shadowKey, vc []int32) {
+	if st.SyncVC == nil {
+		st.SyncVC = map[shadowKey][]int32{}
+	}
+	st.SyncVC[k] = vc
+}
+
+func (e *Engine) acquire(st *State, th *Thread, k shadowKey) {
+	if l := st.syncGet(k); l != nil {
+		th.VC = vcJoin(e.vcOf(th), l)
+	}
+}
+
+func (e *Engine) release(st *State, th *Thread, k shadowKey, join bool) {
+	vc := e.vcOf(th)
+	if join {
+		st.syncSet(k, vcJoin(st.syncGet(k), vc))
+	} else {
+		st.syncSet(k, append([]int32(nil), vc...))
+	}
+	e.vcTick(th)
+}
+
+func (e *Engine) hbAtomic(st *State, th *Thread, p Ptr, write bool) {
+	k := shadowKey{p.Obj, p.Path}
+	e.acquire(st, th, k)
+	if write {
+		e.release(st, th, k, true)
+	}
+}
+
+func (e *Engine) hbAcquire(st *State, th *Thread, p Ptr) { e.acquire(st, th, shadowKey{p.Obj, p.Path}) }
+func (e *Engine) hbRelease(st *State, th *Thread, p Ptr) {
+	e.release(st, th, shadowKey{p.Obj, p.Path}, false)
+}
+func (e *Engine) hbReleaseShared(st *State, th *Thread, p Ptr) {
+	e.release(st, th, shadowKey{p.Obj, p.Path}, true)
+}
+
+var atomicSectionKey = shadowKey{Obj: -1}
+
+func (e *Engine) hbAtomicBegin(st *State, th *Thread) { e.acquire(st, th, atomicSectionKey) }
+func (e *Engine) hbAtomicEnd(st *State, th *Thread)   { e.release(st, th, atomicSectionKey, true) }
+
+func (e *Engine) hbChanSend(st *State, th *Thread, o *Object, id ObjID) {
+	// a send happens after the receives that made room (over-approximated by all earlier receives)
+	e.acquire(st, th, shadowKey{id, "recv"})
+	o.ItemVC = append(append([][]int32(nil), o.ItemVC...), append([]int32(nil), e.vcOf(th)...))
+	e.vcTick(th)
+}
+
+func (e *Engine) hbChanRecv(st *State, th *Thread, o *Object, id ObjID, closed bool) {
+	if closed {
+		e.acquire(st, th, shadowKey{id, "close"})
+		return
+	}
+	if len(o.ItemVC) > 0 {
+		th.VC = vcJoin(e.vcOf(th), o.ItemVC[0])
+		o.ItemVC = append([][]int32(nil), o.ItemVC[1:]...)
+	}
+	e.release(st, th, shadowKey{id, "recv"}, true)
+}
+
+func (e *Engine) hbChanClose(st *State, th *Thread, o *Object, id ObjID) {
+	e.release(st, th, shadowKey{id, "close"}, false)
+}
+
+func (e *Engine) hbChanPeek(st *State, th *Thread, o *Object, id ObjID) {}
+
+func (e *Engine) hbRendezvous(st *State, a, b *Thread) {
+	j := vcJoin(e.vcOf(a), e.vcOf(b))
+	a.VC = append([]int32(nil), j...)
+	b.VC = append([]int32(nil), j...)
+	e.vcTick(a)
+	e.vcTick(b)
+}
+
+func (e *Engine) hbJoinAll(st *State, th *Thread) {
+	vc := e.vcOf(th)
+	for _, o := range st.Threads {
+		if o != th && o.VC != nil {
+			vc = vcJoin(vc, o.VC)
+		}
+	}
+	if st.DoneVC != nil {
+		vc = vcJoin(vc, st.DoneVC)
+	}
+	th.VC = vc
+}
+
+func (e *Engine) hbTimerArm(st *State, th *Thread, id ObjID) {
+	e.release(st, th, shadowKey{id, "timer"}, true)
+}
+
+func (e *Engine) hbTimerFire(st *State, th *Thread, id ObjID) {
+	e.acquire(st, th, shadowKey{id, "timer"})
+}
+
+// leafPaths enumerates the scalar leaf cells below path p of value v.
+func leafPaths(v Value, p string, out []string) []string {
+	switch x := v.(type) {
+	case *StructV:
+		for i, f := range x.F {
+			out = leafPaths(f, pathAppend(p, i), out)
+		}
+		return out
+	case *ArrayV:
+		if len(x.E) > 64 {
+			return append(out, p) // large arrays: one cell
+		}
+		for i, f := range x.E {
+			out = leafPaths(f, pathAppend(p, i), out)
+		}
+		return out
+	}
+	return append(out, p)
+}
+
+// hbAccess checks one plain memory access for a data race.
+func (e *Engine) hbAccess(st *State, th *Thread, o *Object, p Ptr, write bool, pos token.Pos) {
+	if o.Harness || e.inInit {
+		return
+	}
+	fr := th.top()
+	if fr == nil || fr.Info.harness {
+		return
+	}
+	if th.NoPreempt > 0 {
+		return // inside a vrt model
+	}
+	var cells []string
+	switch o.Kind {
+	case OCells:
+		cells = leafPaths(loadPath(o.V, p.Path), p.Path, nil)
+	default:
+		cells = []string{""} // byte arrays, maps: one cell per object
+	}
+	if pos == token.NoPos && fr.Mode == 0 && fr.IP < len(fr.Block.Instrs) {
+		pos = fr.Block.Instrs[fr.IP].Pos()
+	}
+	vc := e.vcOf(th)
+	me := epoch{T: int32(th.ID), C: vc[th.ID], Pos: pos, Fn: fr.Fn.String()}
+	if st.Shadow == nil {
+		st.Shadow = map[shadowKey]*shadowCell{}
+	}
+	for _, cp := range cells {
+		k := shadowKey{p.Obj, cp}
+		old := st.Shadow[k]
+		var nc shadowCell
+		if old != nil {
+			nc = shadowCell{W: old.W, Rd: old.Rd}
+			if old.W.C > 0 && old.W.T != me.T && old.W.C > vcGet(vc, old.W.T) {
+				e.reportRace(st, th, o, cp, old.W, me, true, write)
+			}
+			if write {
+				for _, r := range old.Rd {
+					if r.T != me.T && r.C > vcGet(vc, r.T) {
+						e.reportRace(st, th, o, cp, r, me, false, true)
+					}
+				}
+			}
+		}
+		if write {
+			nc.W = me
+			nc.Rd = nil
+		} else {
+			rd := make([]epoch, 0, len(nc.Rd)+1)
+			for _, r := range nc.Rd {
+				if r.T != me.T {
+					rd = append(rd, r)
+				}
+			}
+			nc.Rd = append(rd, me)
+		}
+		st.Shadow[k] = &nc
+	}
+}
+
+func (e *Engine) cellName(o *Object, path string) string {
+	t := o.Typ
+	name := "object"
+	if t != nil {
+		name = types.TypeString(t, nil)
+	}
+	for _, i := range pathDecode(path) {
+		if t == nil {
+			break
+		}
+		switch u := t.Underlying().(type) {
+		case *types.Struct:
+			if i < u.NumFields() {
+				name += "." + u.Field(i).Name()
+				t = u.Field(i).Type()
+				continue
+			}
+		case *types.Array:
+			name += "[i]"
+			t = u.Elem()
+			continue
+		}
+		t = nil
+	}
+	if o.Kind == OMap {
+		name = "map allocated at " + o.Site
+	}
+	if o.Kind == OBytes {
+		name = "byte buffer allocated at " + o.Site
+	}
+	return name
+}
+
+func (e *Engine) reportRace(st *State, th *Thread, o *Object, path string, prev, cur epoch, prevWrite, curWrite bool) {
+	kind := func(w bool) string {
+		if w {
+			return "write"
+		}
+		return "read"
+	}
+	cell := e.cellName(o, path)
+	label := "c12-race " + cell
+	msg := fmt.Sprintf("data race on %s: %s at %s (%s) is not ordered with the earlier %s at %s (%s)",
+		cell, kind(curWrite), e.posStr(cur.Pos), cur.Fn, kind(prevWrite), e.posStr(prev.Pos), prev.Fn)
+	if e.raceSeen == nil {
+		e.raceSeen = map[string]bool{}
+	}
+	if e.raceSeen[label] {
+		return
+	}
+	e.raceSeen[label] = true
+	e.reportViolation(st, label, msg, nil)
+}
+
+// shadow serialises the race-monitor state of object id (part of the state identity in race mode).
+func (c *canonicaliser) shadow(id ObjID) {
+	st := c.st
+	var keys []string
+	for k := range st.Shadow {
+		if k.Obj == id {
+			keys = append(keys, k.Path)
+		}
+	}
+	sort.Strings(keys)
+	for _, p := range keys {
+		sc := st.Shadow[shadowKey{id, p}]
+		c.str(p)
+		c.i32(sc.W.T)
+		c.i32(sc.W.C)
+		c.i32(int32(len(sc.Rd)))
+		for _, r := range sc.Rd {
+			c.i32(r.T)
+			c.i32(r.C)
+		}
+	}
+	var sk []string
+	for k := range st.SyncVC {
+		if k.Obj == id {
+			sk = append(sk, k.Path)
+		}
+	}
+	sort.Strings(sk)
+	for _, p := range sk {
+		c.str(p)
+		for _, v := range st.SyncVC[shadowKey{id, p}] {
+			c.i32(v)
+		}
+	}
+	if o := st.Heap[id]; o != nil && o.Kind == OChan {
+		for _, vc := range o.ItemVC {
+			for _, v := range vc {
+				c.i32(v)
+			}
+		}
+	}
+}
